@@ -239,7 +239,8 @@ struct CircuitGen {
             case 11: {
                 size_t m = 1 + rng.below(2);
                 for (size_t i = 0; i < m; i++) t.push_back((uint32_t)rng.below(2));
-                c.safe_append_u("MPAD", t);
+                if (o.meas_noise && rng.chance(0.4)) args.push_back(prob());   // MPAD(p): a padding result that is flipped with probability p
+                c.safe_append_u("MPAD", t, args);
                 nmeas += m;
                 hit("gate.MPAD");
                 break;
@@ -514,6 +515,20 @@ inline stim::Circuit gen_qec_circuit(Rng &rng, const QecOpts &o, Stats *st = nul
         lt = product_targets(logical.ref(), false);
         c.safe_append_u("MPP", lt);
         c.safe_append_u("OBSERVABLE_INCLUDE", {TARGET_RECORD_BIT | 1u, TARGET_RECORD_BIT | (uint32_t)(m_since_logical + 2)}, {(double)rng.below(2)});
+    }
+    // noisy results that no qubit is involved in: a padding bit with a flip probability, and a Pauli product that multiplies out to the
+    // identity (both are deterministic without noise, so a detector on them is legitimate)
+    if (o.measurement_noise && rng.chance(0.35)) {
+        double p = o.probs[rng.below(o.probs.size())];
+        if (rng.chance(0.5)) c.safe_append_u("MPAD", {(uint32_t)rng.below(2)}, {p});
+        else {
+            uint32_t q0 = (uint32_t)rng.below(nd);
+            uint32_t px = rng.chance(0.5) ? TARGET_PAULI_X_BIT : TARGET_PAULI_Z_BIT;
+            c.safe_append_u("MPP", {q0 | px, TARGET_COMBINER, q0 | px}, {p});
+        }
+        if (rng.chance(0.7)) c.safe_append_u("DETECTOR", {TARGET_RECORD_BIT | 1u});
+        else c.safe_append_u("OBSERVABLE_INCLUDE", {TARGET_RECORD_BIT | 1u}, {(double)rng.below(2)});
+        if (st) st->hit("qec.noisy_padding_result");
     }
     return c;
 }
